@@ -102,6 +102,18 @@ def slot_invariant(rec, where, case, viol):
             viol.append(("C05:slot-not-declared-type:%s:%s:holds-%s" % (tname, where, kind), case, {"field": k, "value": repr(v)[:80]}))
 
 
+def text_class(rec):
+    """':lone-surrogate' when some text held by the record contains a surrogate that is no escaped byte (U+DC80..U+DCFF)."""
+    def walk(v):
+        if isinstance(v, str):
+            return any(0xD800 <= ord(c) <= 0xDFFF and not 0xDC80 <= ord(c) <= 0xDCFF for c in v)
+        if isinstance(v, (list, tuple)):
+            return any(walk(x) for x in v)
+        return False
+
+    return ":lone-surrogate" if any(walk(getattr(rec, k)) for k in rec.__slots__) else ""
+
+
 def serialisable(rec):
     from flow.record import RecordStreamWriter
 
@@ -350,7 +362,7 @@ def run_case(case):
             slot_invariant(rec, "assigned", case, viol)
             err, data = serialisable(rec)
             if err is not None:
-                viol.append(("C05:accepted-but-unserialisable:%s:%s" % (t, type(err).__name__), case, {"event": ev, "error": repr(err)[:200]}))
+                viol.append(("C05:accepted-but-unserialisable:%s:%s%s" % (t, type(err).__name__, text_class(rec)), case, {"event": ev, "error": repr(err)[:200]}))
             else:
                 decode_probes(rec, data, t, case, viol)
         states.append(jhash([t, after]))
